@@ -16,7 +16,7 @@ RULE = ("cases: spl k segment_size threads contigs (reference = contigs of numer
         "pair tag k seg t1 t2 ref1 ref2 (tag perm: ref2 = ref1 with the contigs permuted; rc: some contigs "
         "reverse-complemented; both: both; same: same reference, two thread counts); rns vb values "
         "(remove_non_singletons[_with_duplicates]); cand k contigs (find_candidate_kmers[_multi]). exhaustive: every "
-        "single contig over {0,1,4} up to length 7 (quick) / 9 (thorough) and every pair of contigs up to length 3/4, "
+        "single contig over {0,1,4} up to length 6 (quick) / 8 (thorough) and every pair of contigs up to length 2/3, "
         "k in {2,3}, segment_size in {0,2,4}; random references: 1..7 contigs, N runs, IUPAC codes and code 30, internal and "
         "cross-contig repeats, duplicated contigs, reverse-complemented copies, contigs shorter than k, low-complexity "
         "contigs, k in 1..32, segment_size 0..200 and 60000, threads 1..16. non-trivial = at least one splitter "
@@ -225,10 +225,10 @@ def gen_cases(rng, tier):
         "cand 3 0001020300010203", "cand 3 00010203,03020100", "cand 3 000001,020203",
     ]
     if tier == "quick":
-        cs += gen_exhaustive(7, 3)
+        cs += gen_exhaustive(6, 2)
         nrand, budget = 700, 900
     else:
-        cs += gen_exhaustive(9, 4)
+        cs += gen_exhaustive(8, 3)
         nrand, budget = 12000, 1500
     for _ in range(nrand):
         cs.append(rand_case(rng, budget))
